@@ -16,6 +16,14 @@ RULE = ("one case = a (client settings, server settings, credential flavour, "
         "negotiated parameter is checked against each side's settings by an "
         "independent oracle working from the IANA suite name and registry "
         "code points seen on the wire; if not, a fatal alert must explain it. "
+        "Directed additions: one signature hash per family and side, "
+        "the product of features a resumed connection carries over (and "
+        "ALPN changed between the two connections), multi-certificate "
+        "chains with a delegated credential, the integration "
+        "ClientHelper entry point, server names of every valid shape, "
+        "clients that offer no group against servers allowing one, "
+        "client certificates nobody asks for; every pair is followed by "
+        "a second connection offering the session.   "
         "distinct_nontrivial = distinct negotiated (version, suite, group, "
         "scheme) tuples + distinct (flavour, outcome) cells + binding "
         "restriction dimensions.")
